@@ -7,7 +7,7 @@ from typing import Any
 
 from harness.common import Ck
 from harness.c07_util import World
-from translate import c07_index_sites, c07_index_shapes, c07_index_del, c07_index_listops
+from translate import c07_index_sites, c07_index_shapes, c07_index_del, c07_index_listops, c07_index_glue
 
 MANIFEST = dict(
     technique='Rocq proof (index invariant preserved by every operation incl. defaultdict reads, by induction over operation sequences on several maps; every operation respects ix_equiv; search() sound and complete; make_unique loop termination by pigeonhole; CopySet iteration total and exception-free under arbitrary mutation; worldspawn pinned; every index-maintaining function of vmf.py read off the source as a program/shape and proved equal to the model operation whenever its named path obligations hold) + four fail-closed ast translators (census of writers/escapes/key sources on a normalised function; shapes/programs of Entity.__setitem__ (lookup loop and maintenance chain), Entity.__delitem__, Entity.clear, VMF.add_ent, VMF.add_ents, VMF.remove_ent, _remove_copyset, VMF.search, CopySet.__iter__) + vm_compute correspondences (operation sequences, search, search as written, iteration traces) + scan oracle on real VMF objects',
@@ -27,7 +27,8 @@ MAX_OBJS = 6
 # functions that are modelled by hand only (no generated shape): a change escalates the correspondence budget.
 # VMF.search, CopySet.__iter__, _remove_copyset, Entity.__setitem__ and VMF.add_ents are read off the source as shapes
 # with obligations on every run, so a rewrite of those needs no escalation.
-MODEL_DIGESTS: dict = {'Entity.make_unique': '11a000401c4a'}
+# round 4: Entity.make_unique has a generated shape too (Gen/IndexGlue_gen.v); nothing decisive is hand-modelled only
+MODEL_DIGESTS: dict = {}
 MAX_MAPS = 3
 
 
@@ -713,10 +714,45 @@ LISTOPS_OBLIGATIONS = {
 }
 
 
-def shape_obligations(ck: Ck, ok_s: bool = True, ok_d: bool = False, ok_l: bool = False) -> None:
+# round 4: the glue (Gen/IndexGlue_gen.v; theorems c07_vmf_init_as_written, c07_parse_as_written, c07_create_ent_as_written,
+# c07_entity_init_as_written, c07_pop_as_written, c07_make_unique_as_written)
+GLUE_IMPORTS = ['SV.SM.IndexModel', 'SV.SM.IndexGlue', 'SV.Gen.IndexGlue_gen']
+GLUE_OBLIGATIONS = {
+    'vmf_init_creates_the_indexes_and_the_entity_list_before_the_worldspawn': 'vmf_init_containers_first gen_vmf_init',
+    'vmf_init_worldspawn_is_a_new_entity_classed_through_setitem_and_filed_under_no_name': 'vmf_init_spawn_ok gen_vmf_init',
+    'parse_takes_the_placeholder_out_of_both_indexes_before_replacing_the_spawn': 'parse_drops_the_placeholder gen_parse_spawn',
+    'parse_classes_the_new_spawn_through_setitem_and_files_it_under_its_name': 'parse_files_the_new_spawn gen_parse_spawn',
+    'parse_adds_every_entity_block_through_add_ent': 'parse_ent_ok gen_parse_entity',
+    'create_ent_constructs_with_the_classname_and_adds_through_add_ent': 'create_ent_ok gen_create_ent',
+    'entity_init_starts_from_a_new_empty_key_dict': 'ei_fresh_dict gen_einit',
+    'entity_init_assigns_the_map_before_storing_keys': 'ei_map_first gen_einit',
+    'entity_init_stores_the_keys_through_setitem': 'match ei_store gen_einit with EISetItemLoop => true | _ => false end',
+    'entity_parse_constructs_through_entity_init': 'gen_entity_parse_through_init',
+    'entity_copy_constructs_through_entity_init_with_its_own_keys_for_the_given_map': 'copy_ok gen_copy',
+    'pop_lookup_is_case_insensitive': 'pop_lookup_is_case_insensitive gen_pop',
+    'pop_deletes_through_delitem': 'pop_deletes_through_delitem gen_pop',
+    'make_unique_keeps_a_name_that_only_this_entity_has': 'mu_unique_test_ok gen_make_unique',
+    'make_unique_clears_its_own_name_before_searching': 'mu_clears_ok gen_make_unique',
+    'make_unique_base_name_strips_digits_and_is_looked_up_folded': 'mu_base_ok gen_make_unique',
+    'make_unique_candidates_count_from_1_and_are_looked_up_folded': 'mu_loop_ok gen_make_unique',
+    'make_unique_stores_names_through_setitem': 'mu_stores_through_setitem gen_make_unique',
+    'popitem_setdefault_update_are_the_mutablemapping_mixins': 'gen_mixins_inherited',
+    'getitem_never_raises_so_setdefault_stores_nothing': 'gen_getitem_never_raises',
+}
+# the instance of theorem c07_property: all generated objects together pass programs_ok
+PROGRAMS_EXPR = ('programs_ok (PG gen_setitem_shape gen_setitem_maint gen_delitem_maint gen_delitem_loop gen_clear gen_add_ent '
+                 'gen_remove_ent gen_add_ents gen_remove_copyset gen_search_shape gen_vmf_init gen_parse_spawn gen_parse_entity '
+                 'gen_create_ent gen_einit gen_entity_parse_through_init gen_copy gen_pop gen_make_unique gen_mixins_inherited '
+                 'gen_getitem_never_raises)')
+
+
+def shape_obligations(ck: Ck, ok_s: bool = True, ok_d: bool = False, ok_l: bool = False, ok_g: bool = False) -> None:
     groups = [g for g in ((ok_s, SHAPE_IMPORTS, SHAPE_OBLIGATIONS, 'IndexShapes_gen'),
                           (ok_d, DEL_IMPORTS, DEL_OBLIGATIONS, 'IndexDel_gen'),
-                          (ok_l, LISTOPS_IMPORTS, LISTOPS_OBLIGATIONS, 'IndexListOps_gen')) if g[0]]
+                          (ok_l, LISTOPS_IMPORTS, LISTOPS_OBLIGATIONS, 'IndexListOps_gen'),
+                          (ok_g, GLUE_IMPORTS, GLUE_OBLIGATIONS, 'IndexGlue_gen')) if g[0]]
+    if ok_s and ok_d and ok_l and ok_g:
+        groups.append((True, ['SV.SM.IndexProperty'], {'c07_property:all_programs_pass_their_obligations': PROGRAMS_EXPR}, 'Index*_gen'))
     # one coqc run for all generated files that exist (their definitions have distinct names)
     imports: list[str] = []
     obs: dict[str, str] = {}
@@ -729,7 +765,7 @@ def shape_obligations(ck: Ck, ok_s: bool = True, ok_d: bool = False, ok_l: bool 
     for oname, good in res.items():
         if not good:
             ck.tie_broken.append(f'source shape obligation {oname} (Gen/{where.get(oname, "?")}.v)')
-    ck.extra['source_shapes'] = {g: ck.extra.get('translated', {}).get(g) for g in ('IndexShapes_gen', 'IndexDel_gen', 'IndexListOps_gen')}
+    ck.extra['source_shapes'] = {g: ck.extra.get('translated', {}).get(g) for g in ('IndexShapes_gen', 'IndexDel_gen', 'IndexListOps_gen', 'IndexGlue_gen')}
 
 
 # ------------------------------------------------------------------------------------------------ main
@@ -790,16 +826,18 @@ def run(ck: Ck) -> None:
     ok_s = ck.translate('IndexShapes_gen', c07_index_shapes.translate)
     ok_d = ck.translate('IndexDel_gen', c07_index_del.translate)
     ok_l = ck.translate('IndexListOps_gen', c07_index_listops.translate)
+    ok_g = ck.translate('IndexGlue_gen', c07_index_glue.translate)
     built = ck.build(['Props/C07.vo'] + (['SM/IndexCensus.vo'] if ok_t else []) + (['Gen/IndexShapes_gen.vo'] if ok_s else [])
-                     + (['Gen/IndexDel_gen.vo'] if ok_d else []) + (['Gen/IndexListOps_gen.vo'] if ok_l else []))
+                     + (['Gen/IndexDel_gen.vo'] if ok_d else []) + (['Gen/IndexListOps_gen.vo'] if ok_l else [])
+                     + (['Gen/IndexGlue_gen.vo'] if ok_g else []))
     lap('translate+build')
     if built:
         # Print Assumptions of every theorem of Props/C07.v is one single-threaded coqc run of about 20 s: it runs in
         # the background while the obligations and correspondences below are evaluated; ck.theorems() then does its
         # usual bookkeeping on that output (same scratch file text, see _assumptions_in_background)
         finish_theorems = _assumptions_in_background(ck, 'Props/C07.v')
-        if ok_s or ok_d or ok_l:
-            shape_obligations(ck, ok_s, ok_d, ok_l)
+        if ok_s or ok_d or ok_l or ok_g:
+            shape_obligations(ck, ok_s, ok_d, ok_l, ok_g)
             lap('shape_obligations')
         if ok_t:
             obs = {
@@ -818,17 +856,22 @@ def run(ck: Ck) -> None:
                 'remove_ent_removes_from_both': 'existsb (fun s => String.eqb (site_fn s) "VMF.remove_ent" && String.eqb (site_ix s) "by_class") index_sites && existsb (fun s => String.eqb (site_fn s) "VMF.remove_ent" && String.eqb (site_ix s) "by_target") index_sites',
                 'parse_drops_placeholder_spawn': 'existsb (fun s => String.eqb (site_fn s) "VMF.parse" && String.eqb (site_ix s) "by_class" && negb (site_add s)) index_sites && existsb (fun s => String.eqb (site_fn s) "VMF.parse" && String.eqb (site_ix s) "by_target" && negb (site_add s)) index_sites',
             }
+            # the census hypothesis of theorem c07_property: every function that writes an index, an entity list, VMF.spawn or
+            # a key dict (or hands such work to another writer) is one of the functions with an as-written semantics
+            obs['c07_property:every_census_function_is_modelled'] = (
+                'census_covered (map fst key_writers ++ map fst entity_list_writers ++ map fst spawn_writers ++ '
+                'map (fun s => site_fn s) index_sites ++ map fst index_writer_calls ++ map snd index_writer_calls)')
             for fn in sorted({s[0] for s in side.get('index_sites', [])}):
                 obs[f'index_keys_folded_in:{fn}'] = f'keys_folded_in "{fn}"'
                 obs[f'index_key_values_come_from_the_filed_entity_in:{fn}'] = f'key_sources_ok_in "{fn}"'
-            res = ck.instance_obligations(['Coq.Lists.List', 'Coq.Strings.String', 'Coq.Bool.Bool', 'SV.Gen.IndexSites_gen', 'SV.SM.IndexCensus'],
-                                          obs, name='census')
+            res = ck.instance_obligations(['Coq.Lists.List', 'Coq.Strings.String', 'Coq.Bool.Bool', 'SV.Gen.IndexSites_gen', 'SV.SM.IndexCensus',
+                                           'SV.SM.IndexProperty'], obs, name='census')
             for name, ok in res.items():
                 if not ok:
                     ck.tie_broken.append(f'census obligation {name} (Gen/IndexSites_gen.v)')
         # a changed hand-modelled function escalates the correspondence budget (never an alarm by itself)
         hand = {k: v for k, v in side.get('digests', {}).items() if k in MODEL_DIGESTS}
-        if side.get('digests') and (hand != MODEL_DIGESTS or not (ok_s and ok_d and ok_l)):
+        if side.get('digests') and (hand != MODEL_DIGESTS or not (ok_s and ok_d and ok_l and ok_g)):
             ck.notes.append(f'hand-modelled functions changed since the model was written ({hand}): thorough correspondence budget')
             ck.extra['digest_escalation'] = True
         lap('census_obligations')
